@@ -8,8 +8,22 @@ MANIFEST = {
     "technique": "Coq proof (parser model applied to an independent serialiser of the standard's syntax) + differential "
                  "correspondence: the extracted serialiser generates NAL units from random field values, the real Go parsers "
                  "and the extracted parser models parse them",
-    "level_text": "see coq/c15/C15Theorems.v; filled in below",
-    "level_note": "filled in below",
+    "level_text": "Theorems (coq/c15/C15Theorems.v), for ALL valid field assignments (no bound on counts or values inside the "
+                  "standard's ranges): C15_avc_sps / C15_avc_sps_all_valid: the model of avc.ParseSPSNALUnit applied to the "
+                  "independent serialiser's NAL unit returns exactly the chosen values (all profile_idc branches, scaling lists, "
+                  "poc types 0-2, frame/field, cropping, VUI with HRD, both parseVUIBeyondAspectRatio modes), width/height by "
+                  "the cropping formula; C15_avc_sps_offsets_refuted: negative se(v) offsets are not returned (known finding F2: "
+                  "uint fields); C15_avc_pps: the same for avc.ParsePPSNALUnit (every slice-group map type, more_rbsp_data tail, "
+                  "scaling lists with and without transform_8x8, trailing bits). MODELLED and tied to the code by correspondence, "
+                  "NOT yet proved: avc.ParseSliceHeader (pps id -> sps id resolution, all slice types, size = bytes consumed; the "
+                  "spsID defect was found here and fixed), AVC decoder configuration record and codec string. NOT modelled: the "
+                  "HEVC VPS/SPS/PPS/slice-header parsers, hevc decoder configuration record and codec string - for them the "
+                  "property is not decided by this check (partial).",
+    "level_note": "Trusted: Coq kernel, extraction, OCaml/Go glue, the hand-written serialisers of C15Spec.v (my transcription of the "
+                  "syntax tables of ISO/IEC 14496-10 section 7.3.2, cross-checked on every run against the real parser and the "
+                  "captured parameter sets of the repository's test data) and the hand transcription C15Model.v of the Go parsers "
+                  "(tied to /repo by the correspondence on generated NAL units only). The bit reader in the proofs is the ideal "
+                  "bit-list reader; the correspondence additionally runs the C13 EBSP-reader instance.",
 }
 
 
